@@ -63,7 +63,10 @@ def integrate_column(y, x=None, axis=0):
         >>> integrate_column(y, x)
         2.0
     """
-    return np.trapz(y, x, axis=axis)
+    # ``numpy.trapz`` was renamed to ``numpy.trapezoid`` (and later removed).
+    trapezoid = getattr(np, 'trapezoid', None) or np.trapz
+
+    return trapezoid(y, x, axis=axis)
 
 
 def interpolate_halflevels(x, axis=0):
